@@ -9,6 +9,10 @@ pub const NAME: &str = "prim";
 macro_rules! layout_groups { ($m:ident) => { vcore::for_each_group_q!($m); }; }
 #[macro_export]
 macro_rules! layout_group_names { ($m:ident) => { vcore::with_group_names_q!($m); }; }
+#[macro_export]
+macro_rules! probe_layout_groups { ($m:ident) => { vcore::for_each_group_x!($m); }; }
+#[macro_export]
+macro_rules! probe_layout_group_names { ($m:ident) => { vcore::with_group_names_x!($m); }; }
 fn main() {
     driver::main();
 }
